@@ -1000,8 +1000,12 @@ func (s *UtxoSweeper) markInputsPublishFailed(set InputSet,
 
 		// Update the input using the fee rate specified from the
 		// BumpResult, which should be the starting fee rate to use for
-		// the next sweeping attempt.
-		pi.params.StartingFeeRate = fn.Some(feeRate)
+		// the next sweeping attempt. A failed attempt that never got as
+		// far as a fee rate reports zero, and must not erase a rate the
+		// input was already offered at, so we never lower the value.
+		if feeRate >= pi.params.StartingFeeRate.UnwrapOr(0) {
+			pi.params.StartingFeeRate = fn.Some(feeRate)
+		}
 	}
 }
 
